@@ -20,7 +20,8 @@ typedef void (*run_fn)(char *, double *, int, int, int, double *, int, int, doub
 typedef struct { unsigned char *map; size_t maplen; double *buf; size_t n; } guarded;
 
 static int read_all(void *p, size_t n) { size_t got = 0; while (got < n) { ssize_t r = read(0, (char *)p + got, n - got); if (r <= 0) return -1; got += (size_t)r; } return 0; }
-static int write_all(const void *p, size_t n) { size_t put = 0; while (put < n) { ssize_t r = write(1, (const char *)p + put, n - put); if (r <= 0) return -1; put += (size_t)r; } return 0; }
+static int out_fd = 1;
+static int write_all(const void *p, size_t n) { size_t put = 0; while (put < n) { ssize_t r = write(out_fd, (const char *)p + put, n - put); if (r <= 0) return -1; put += (size_t)r; } return 0; }
 
 static guarded place(size_t n, int at_start) {
   guarded g; size_t bytes = n * sizeof(double); size_t pages = (bytes + PAGE - 1) / PAGE; if (pages == 0) pages = 1;
@@ -42,6 +43,8 @@ static void release(guarded *g) { munmap(g->map, g->maplen); }
 
 int main(int argc, char **argv) {
   if (argc < 2) { fprintf(stderr, "usage: driver libopenwater.so\n"); return 2; }
+  /* the library may print diagnostics on stdout: keep the protocol on a private descriptor */
+  out_fd = dup(1); dup2(2, 1);
   void *h = dlopen(argv[1], RTLD_NOW);
   if (!h) { fprintf(stderr, "dlopen: %s\n", dlerror()); return 2; }
   run_fn run = (run_fn)dlsym(h, "RunSingleModel");
